@@ -169,6 +169,64 @@ def _load(fa, p):
     return fa.schema.to_parsing_canonical_form(load_schema(os.path.join(p.tmpdir, "acme.Parent.avsc")))
 
 
+def _load_named(fa, p, name):
+    from fastavro.schema import load_schema
+
+    return fa.schema.to_parsing_canonical_form(load_schema(os.path.join(p.tmpdir, name + ".avsc")))
+
+
+PETS = {"type": "record", "name": "Box", "namespace": "pets", "fields": [{"name": "u", "type": [
+    {"type": "record", "name": "Cat", "fields": [{"name": "n", "type": "string"}]}, {"type": "record", "name": "Dog", "fields": [{"name": "n", "type": "string"}]}]}]}
+READER_OPTS = [{"return_record_name": True}, {}, {"return_named_type": True}]
+
+
+def _readers(fa, overlap, ctor="reader"):
+    """Container readers created with different options; overlap=True creates all of them before any is consumed.
+    The two ways must give the same records (compared between the two calls' baselines, see EQUIV)."""
+    data = _container(fa, copy.deepcopy(PETS), [{"u": ("pets.Dog", {"n": "rex"})}, {"u": ("pets.Cat", {"n": "tom"})}])
+    mk = lambda o: getattr(fa, ctor)(io.BytesIO(data), **o)  # noqa: E731
+    drain = (lambda r: list(r)) if ctor == "reader" else (lambda r: [x for b in r for x in b])
+    if overlap:
+        rs = [mk(o) for o in READER_OPTS]
+        return [drain(r) for r in rs]
+    return [drain(mk(o)) for o in READER_OPTS]
+
+
+def _writers(fa, overlap):
+    """Two Writers on distinct streams; overlap=True interleaves their lifetimes and their writes."""
+    from fastavro._write_py import Writer
+
+    sa = {"type": "record", "name": "Wa", "fields": [{"name": "a", "type": "long"}]}
+    sb = {"type": "record", "name": "Wb", "fields": [{"name": "b", "type": "string"}]}
+    ra, rb = [{"a": i} for i in range(3)], [{"b": "s%d" % i} for i in range(3)]
+    fa_, fb_ = io.BytesIO(), io.BytesIO()
+    marker = b"S" * 16
+    if overlap:
+        wa = Writer(fa_, sa, sync_marker=marker)
+        wa.write(ra[0])
+        wb = Writer(fb_, sb, sync_marker=marker)
+        for i in range(3):
+            if i:
+                wa.write(ra[i])
+            wb.write(rb[i])
+        wb.flush()
+        wa.flush()
+    else:
+        wa = Writer(fa_, sa, sync_marker=marker)
+        for r in ra:
+            wa.write(r)
+        wa.flush()
+        wb = Writer(fb_, sb, sync_marker=marker)
+        for r in rb:
+            wb.write(r)
+        wb.flush()
+    return [fa_.getvalue(), fb_.getvalue()]
+
+
+# calls that differ only in whether the objects they create are alive at the same time: results must agree
+EQUIV = {"readers_overlap": "readers_sequential", "block_readers_overlap": "block_readers_sequential", "writers_overlap": "writers_sequential"}
+
+
 def _json_write(fa, s, recs):
     fo = io.StringIO()
     fa.json_writer(fo, s, recs)
@@ -223,6 +281,15 @@ CALLS = {
     "generate_b_raw": lambda fa, p: _gen(fa, p.raw_b),
     "generate_node": lambda fa, p: _gen(fa, p.parsed_node, 1),
     "load_schema": _load,
+    "load_child": lambda fa, p: _load_named(fa, p, "acme.Child"),
+    "load_order_diamond": lambda fa, p: _load_named(fa, p, "acme.Order"),
+    "load_kind": lambda fa, p: _load_named(fa, p, "acme.Kind"),
+    "readers_overlap": lambda fa, p: _readers(fa, True),
+    "readers_sequential": lambda fa, p: _readers(fa, False),
+    "block_readers_overlap": lambda fa, p: _readers(fa, True, "block_reader"),
+    "block_readers_sequential": lambda fa, p: _readers(fa, False, "block_reader"),
+    "writers_overlap": lambda fa, p: _writers(fa, True),
+    "writers_sequential": lambda fa, p: _writers(fa, False),
     "container_a": lambda fa, p: _container(fa, p.parsed_a, [p.da, {"id": 3, "name": "x"}], codec="deflate"),
     "container_b_validated": lambda fa, p: _container(fa, p.raw_b, [p.db], validator=True),
     "container_a_bad": lambda fa, p: _container(fa, p.raw_a, [p.da, {"id": "bad"}], validator=True),
@@ -420,6 +487,9 @@ def write_repo(tmpdir):
             {"name": "c", "type": "Child"}, {"name": "cs", "type": {"type": "array", "items": "acme.Child"}}, {"name": "k", "type": "Kind"}]},
         "acme.Child": {"type": "record", "name": "Child", "namespace": "acme", "fields": [{"name": "k", "type": "Kind"}]},
         "acme.Kind": {"type": "enum", "name": "Kind", "namespace": "acme", "symbols": ["X", "Y"]},
+        # a diamond: uses the shared dependency Kind BEFORE the intermediate Child that also depends on it
+        "acme.Order": {"type": "record", "name": "Order", "namespace": "acme", "fields": [
+            {"name": "sample", "type": "acme.Kind"}, {"name": "child", "type": "acme.Child"}, {"name": "more", "type": {"type": "array", "items": "Child"}}]},
     }
     for n, s in files.items():
         with open(os.path.join(tmpdir, n + ".avsc"), "w") as f:
@@ -442,7 +512,7 @@ COLLIDERS = ["parse_a_into_named", "parse_b_into_named", "expand_a", "expand_nod
              "read_a_as_b", "read_b_as_a", "json_read_a_absent", "json_read_a_raw_absent", "json_read_b_absent", "generate_a", "generate_b_raw",
              "dec3_read", "dec12_read", "write_a_bad_last", "container_a", "container_read_a_as_b", "validate_a_raises", "load_schema",
              "parse_node_parsed_into_named", "write_node", "read_a", "read_b", "read_dangling_sub", "canon_piecewise", "container_piecewise",
-             "container_union_piecewise", "container_read_a", "generate_dangling", "json_read_nested_defaults", "block_copy_twice", "block_copy_pool", "write_hinted_strict", "write_hinted", "dec_p6_read", "dec_p20_read"]
+             "container_union_piecewise", "container_read_a", "generate_dangling", "load_child", "load_order_diamond", "readers_overlap", "writers_overlap", "json_read_nested_defaults", "block_copy_twice", "block_copy_pool", "write_hinted_strict", "write_hinted", "dec_p6_read", "dec_p20_read"]
 
 
 def step_check(res, fa, pool, hist, call):
@@ -466,6 +536,11 @@ def run_unit(unit, tier):
     with tempfile.TemporaryDirectory(prefix="verif-c17-") as tmpdir:
         write_repo(tmpdir)
         if unit[0] == "bfs":
+            for a, b in EQUIV.items():
+                res.evals += 1
+                if _BASE[a] != _BASE[b]:
+                    res.add(Violation("c17.overlap", f"overlapping-lifetimes-differ:{a}", f"{a} returns {short(_BASE[a], 400)} but {b} (same objects, one at a time) returns {short(_BASE[b], 400)}",
+                                      {"history": [], "call": a}))
             fa, pool = build([], tmpdir)
             init = key(library_snapshot() + [snap(pool.objects()), snap(pool.named)])
             seen = {init}
